@@ -1,6 +1,7 @@
 import MosnVerif.Drive.Util
 import MosnVerif.Model.Headers
 import MosnVerif.Drive.RetryDrive
+import MosnVerif.Model.RouteFinalize
 namespace MosnVerif.Drive.C17
 open MosnVerif.Drive MosnVerif.Model.Headers MosnVerif.Gen.HeaderMutation MosnVerif.Gen.ProxyTimeout
 
@@ -86,6 +87,62 @@ def timeout (a : List String) (impl : List String) : String :=
     | _, _, _, _, _, _, _, _ => "E E bad-case"
   | _, _ => "E E bad-case"
 
+/-! ### kind `fz`: a hop's FinalizeRequestHeaders on a request that arrives with state -/
+
+def showOptS (o : Option String) : String := match o with | none => "~" | some s => hexStr s
+
+/-- declarative reference, written without the regenerated code: (path, host, headers) after the hop -/
+def fzSpec (kind : String) (matched prw : String) (re : Option String) (hostRw autoHdr : String) (l : Levels)
+    (path oracle host : Option String) (h : Hdrs) : String :=
+  let _ := kind
+  let ops := specOps l
+  -- the path: prefix_rewrite wins; a regex_rewrite of more than one character counts when no prefix_rewrite is configured
+  let newPath : Option String :=
+    match path with
+    | none => none
+    | some p =>
+      if p = "" then none
+      else if prw ≠ "" then
+        (if matched.toList.isPrefixOf p.toList then some (prw ++ String.ofList (p.toList.drop matched.length)) else none)
+      else match re with
+        | some r => if r.length > 1 then (match oracle with | some o => if o ≠ p then some o else none | none => none) else none
+        | none => none
+  let outPath := match newPath with | some np => some np | none => path
+  let origName := "x-mosn-original-path"
+  let keys := dedup (h.map (·.1) ++ ops.map Op.key ++ [origName])
+  let outH : Hdrs := keys.filterMap (fun k =>
+    let v := if newPath.isSome ∧ k = origName then path else specValue ops k (get h k)
+    v.map (fun v => (k, v)))
+  let outHost : Option String :=
+    if hostRw ≠ "" then some hostRw
+    else if autoHdr ≠ "" then (match specValue ops autoHdr (get h autoHdr) with | some v => some v | none => host)
+    else host
+  showOptS outPath ++ " " ++ showOptS outHost ++ " " ++ showHdrs outH
+
+def fz (a : List String) (impl : List String) : String :=
+  match a, impl with
+  | [_hop, kind, matchH, prwH, reH, hostRwH, autoH, rp, vp, gp, pathH, oracleH, hostH, hdrsH], [oPath, oHost, oHdrs] =>
+    match unhexStr matchH, unhexStr prwH, optStr reH, unhexStr hostRwH, unhexStr autoH, parseParser rp, parseParser vp, parseParser gp with
+    | some matched, some prw, some re, some hostRw, some autoHdr, some pr, some pv, some pg =>
+      match optStr pathH, optStr oracleH, optStr hostH, parseHdrs hdrsH with
+      | some path, some oracle, some host, some h0 =>
+        let h := dedupKeys h0
+        let l : Levels := ⟨pr, pv, pg⟩
+        let reStr := re.getD ""
+        let stored := if MosnVerif.Gen.RouteAction.regexStored re.isSome reStr prw then reStr else ""
+        let k : Model.RouteFinalize.Kind := if kind == "p" then .prefix else if kind == "x" then .path else .regex
+        let r : Model.RouteFinalize.Route :=
+          { kind := k, matched := matched, cfg := ⟨prw, stored, stored != "", hostRw, autoHdr, false⟩, levels := l,
+            regexReplace := fun x => oracle.getD x, env := ⟨false, "", ""⟩ }
+        let o := Model.RouteFinalize.finalizeRequest r ⟨h, path, host⟩
+        let m := showOptS o.path ++ " " ++ showOptS o.host ++ " " ++ showHdrs o.hdrs
+        let s := fzSpec kind matched prw re hostRw autoHdr l path oracle host h
+        let out := oPath ++ " " ++ oHost ++ " " ++ oHdrs
+        s!"{if m == out then "A" else "D"} {if s == out then "S" else "V"} {m}"
+      | _, _, _, _ => "E E bad-case"
+    | _, _, _, _, _, _, _, _ => "E E bad-case"
+  | _, _ => "E E bad-case"
+
 def run (caseToks impl : List String) : String :=
   match caseToks with
   | ["hdr", side, r, v, g, h0] => hdr side r v g h0 impl
@@ -93,6 +150,7 @@ def run (caseToks impl : List String) : String :=
   | "rt" :: rest => RetryDrive.rt rest impl
   | "rw" :: rest => RetryDrive.rw rest impl
   | "rd" :: rest => RetryDrive.rd rest impl
+  | "fz" :: rest => fz rest impl
   | _ => "E E unknown-kind"
 
 end MosnVerif.Drive.C17
